@@ -9,8 +9,8 @@ PROPS = {
         technique="property-based testing (rapid): generated pod-lifecycle / reconcile-order / fault histories over the real ReconcilePod and "
                   "ReconcilePodENI (incl. gcCRPodENIs, gcSecondaryENI, gcMemberENI as actions) on one controller-runtime fake client and an ECS simulator; "
                   "oracles: phase-edge recorder on every PodENI write, call-time liveness monitor on every Detach/Delete, interface/record ledger at every step, end state after settling",
-        rule="a case = cluster config (trunk on/off, CRD mode, IP stack, network cards, apparent age of created interfaces) + 1..3 pod names with 1..2 interfaces each "
-             "(elastic / fixed TTL / fixed Never, mixed) + a history of about 20 steps (thorough 30) drawn as a shrinkable list: create/delete(terminating)/sandbox-exit/gone per pod "
+        rule="a case = cluster config (trunk on/off, CRD mode, IP stack, network cards, apparent age of created interfaces) + 1..3 pod names with 1..2 interfaces each, a third of them without the pod-eni annotation (served only in CRD mode or on the exclusive-ENI node) "
+             "(elastic / fixed TTL / fixed Never, mixed) + a history of about 20 steps (thorough 30) drawn as a shrinkable list: create/delete(terminating)/sandbox-exit/gone per pod, in a third of the histories also Node object removed / registered again (collector passes are favoured while one is missing), "
              "with a drawn node (same name, new UID, same or other node), ReconcilePod(name), ReconcilePodENI(name), gcCR, gcSecondary, gcMember, each reconcile step with an optional "
              "cloud fault mask (Create/Attach/Detach/Delete per interface slot, Describe, DescribeVSwitch), API fault mask (Get pod/node/record, List, Create, Update, Patch, status Update/Patch, Delete; "
              "internal error or conflict) and an optional action executed INSIDE the step's first cloud call (pod leaves / appears, the other controller runs, or both: pod gone + ReconcilePod while ReconcilePodENI is inside AttachNetworkInterface); cloud fault bits are drawn from the calls the step kind can issue; additionally an optional cloud outage (one call kind + interface slot fails during a window of steps) and up to 4 entries of the form: the n-th Delete/Detach call of the history fails; then faults off and 8 settle rounds. "
